@@ -13,6 +13,7 @@ import (
 	"runtime"
 	"sort"
 	"strings"
+	"syscall"
 
 	"github.com/goplus/gogen"
 	"github.com/goplus/gogen/verif/internal/fe"
@@ -28,6 +29,7 @@ type Opt struct {
 	PkgPath   string
 	AfterOp   func()
 	NoSkipConstant bool
+	NoRef          bool // skip the reference side entirely (resource measurements: builder + printer only)
 }
 
 type Diff struct {
@@ -38,9 +40,11 @@ type Diff struct {
 
 type RecEvent struct {
 	Kind string // member / call
-	Node string
+	Node ast.Node // rendered on demand (NodeStr): rendering eagerly would make long selector chains quadratic in the monitor
 	Obj  types.Object
 }
+
+func (e RecEvent) NodeStr() string { return nodeStr(e.Node) }
 
 type Outcome struct {
 	SrcParseErr string
@@ -74,15 +78,17 @@ type Outcome struct {
 	Out         *ref.Checked
 	Pkg         *gogen.Package
 	MaxDepth    int
+	BuildAlloc  uint64  // bytes allocated while the builder operations ran (NoRef mode)
+	BuildCPU    float64 // process CPU seconds spent in the builder operations (NoRef mode)
 }
 
 type recorder struct{ o *Outcome }
 
 func (r recorder) Member(id ast.Node, obj types.Object) {
-	r.o.RecEvents = append(r.o.RecEvents, RecEvent{"member", nodeStr(id), obj})
+	r.o.RecEvents = append(r.o.RecEvents, RecEvent{"member", id, obj})
 }
 func (r recorder) Call(fn ast.Node, obj types.Object) {
-	r.o.RecEvents = append(r.o.RecEvents, RecEvent{"call", nodeStr(fn), obj})
+	r.o.RecEvents = append(r.o.RecEvents, RecEvent{"call", fn, obj})
 }
 
 func nodeStr(n ast.Node) string {
@@ -212,7 +218,9 @@ func Build(u *ref.Universe, srcs []string, opt Opt) *Outcome {
 	if pkgPath == "" {
 		pkgPath = pkgName
 	}
-	u.CheckFiles(pkgPath, src)
+	if !opt.NoRef {
+		u.CheckFiles(pkgPath, src)
+	}
 	o.Src = src
 	o.SrcErrs = src.Errs
 	o.SrcValid = len(src.Errs) == 0
@@ -229,6 +237,12 @@ func Build(u *ref.Universe, srcs []string, opt Opt) *Outcome {
 			o.MaxDepth = ev.After
 		}
 	}
+	var m0, m1 runtime.MemStats
+	var t0 float64
+	if opt.NoRef {
+		runtime.ReadMemStats(&m0)
+		t0 = cpuSeconds()
+	}
 	func() {
 		defer func() {
 			if e := recover(); e != nil {
@@ -241,6 +255,11 @@ func Build(u *ref.Universe, srcs []string, opt Opt) *Outcome {
 		c.CompileFiles(files)
 		o.Status = "accepted"
 	}()
+	if opt.NoRef {
+		o.BuildCPU = cpuSeconds() - t0
+		runtime.ReadMemStats(&m1)
+		o.BuildAlloc = m1.TotalAlloc - m0.TotalAlloc
+	}
 	o.Ops = c.Ops
 	o.PkgUses = c.PkgUses
 	o.Reported = c.Reported
@@ -260,6 +279,19 @@ func Build(u *ref.Universe, srcs []string, opt Opt) *Outcome {
 		o.foldedBad(c)
 	}
 	// output
+	if opt.NoRef {
+		o.Files = map[string]string{}
+		pkg.ForEachFile(func(fname string, _ *gogen.File) { o.FileOrder = append(o.FileOrder, fname) })
+		for _, fn := range o.FileOrder {
+			var b bytes.Buffer
+			if err := pkg.WriteTo(&b, fn); err != nil {
+				o.Status, o.Msg = "write-error", err.Error()
+				return o
+			}
+			o.Files[fn] = b.String()
+		}
+		return o
+	}
 	if !o.Write(u, pkg, pkgPath) {
 		return o
 	}
@@ -268,6 +300,12 @@ func Build(u *ref.Universe, srcs []string, opt Opt) *Outcome {
 	}
 	o.compare(u, c)
 	return o
+}
+
+func cpuSeconds() float64 {
+	var ru syscall.Rusage
+	syscall.Getrusage(syscall.RUSAGE_SELF, &ru)
+	return float64(ru.Utime.Nano()+ru.Stime.Nano()) / 1e9
 }
 
 // Write prints every file of pkg, re-parses and re-checks the result. Returns false if writing crashed.
